@@ -208,7 +208,9 @@ async fn episode(p: &EpParams, mt: bool) -> EpReport {
         w.advance(Duration::from_secs(150)).await;
         if !with_delete_topic {
             for _ in 0..4 {
-                let _ = Cx::new(&w, 6).publish(&t, &[]).await;
+                // (bounded: if the topic is wedged this call would never return, and the wedge is
+                // reported by the pending burst calls below)
+                let _ = tokio::time::timeout(Duration::from_secs(1), Cx::new(&w, 6).publish(&t, &[])).await;
             }
             rep.inc("empty_wakeups_mid_wait");
         }
